@@ -281,6 +281,9 @@ class AgentWorld(object):
         elif kind == 'OP_START':
             from yabgp.api import utils
             fn = lambda: s.effect(('rest', _summ(utils.manual_start(self.cfg['remote_addr']))))  # noqa
+        elif kind == 'REST':
+            req = messages['@' + ev[1]]
+            fn = lambda: s.effect(('rest',) + self.rest(*req))   # noqa
         elif kind == 'WAIT':
             due = s.due_calls()
             if self.disconnecting() or (due and s.now + ev[1] > due[0].time + 1e-9):
@@ -321,6 +324,28 @@ class AgentWorld(object):
         if not ok:
             raise ReplayDivergence('event %r not enabled (connector is not %s)' % (ev, what))
         return c
+
+    # ------------------------------------------------------------------ REST (Flask test client)
+    _client = None
+
+    def rest(self, method, path, json=None, auth='admin:admin', raw=False):
+        """One REST request as one atomic event; returns (status, summarised JSON body)."""
+        import base64
+        from yabgp.api.app import app
+        if AgentWorld._client is None:
+            AgentWorld._client = app.test_client()
+        headers = {}
+        if auth is not None:
+            headers['Authorization'] = 'Basic ' + base64.b64encode(auth.encode()).decode()
+        path = path.replace('<ip>', self.cfg['remote_addr'])
+        kw = {'headers': headers}
+        if json is not None:
+            kw['json'] = json
+        r = AgentWorld._client.open(path, method=method, **kw)
+        body = r.get_json(silent=True)
+        if raw:
+            return r.status_code, body, r.get_data()
+        return r.status_code, _summ(body)
 
     # ------------------------------------------------------------------ queries
     def reported_state(self):
